@@ -7,6 +7,7 @@ import (
 	"testing"
 
 	kmip "github.com/ovh/kmip-go"
+	"github.com/ovh/kmip-go/payloads"
 	"github.com/ovh/kmip-go/ttlv"
 	"pgregory.net/rapid"
 
@@ -78,6 +79,9 @@ type c06Case struct {
 	ItemHex  string `json:"batch_item_reference_hex"`
 	ItemText string `json:"batch_item_tree"`
 	Input    string `json:"input"`
+	// HeldVariable: the item was decoded into a request item variable that still held the payload of an earlier item (a
+	// Get, Destroy or Create Key Pair request, chosen by the operation code modulo 3)
+	HeldVariable bool `json:"decoded_into_a_variable_used_before,omitempty"`
 }
 
 // walkAttributes calls f for every kmip.Attribute inside v.
@@ -137,7 +141,19 @@ func objectOf(p kmip.OperationPayload) (kmip.ObjectType, kmip.Object, bool) {
 	return ot, obj, true
 }
 
-func c06Check(tree *ttlvref.Node, code uint32, response bool, enc string) (sig string, err error) {
+// c06Earlier: what a request item variable that is used again and again (a server loop that keeps one item around) may
+// still hold when the next item arrives: the payload of an earlier operation.
+func c06Earlier(k int) kmip.OperationPayload {
+	switch k % 3 {
+	case 0:
+		return &payloads.GetRequestPayload{UniqueIdentifier: "earlier"}
+	case 1:
+		return &payloads.DestroyRequestPayload{UniqueIdentifier: "earlier"}
+	}
+	return &payloads.CreateKeyPairRequestPayload{}
+}
+
+func c06Check(tree *ttlvref.Node, code uint32, response bool, enc string, reuse ...bool) (sig string, err error) {
 	input := refEncode(tree, enc)
 	refBin := ttlvref.Write(tree)
 	var payload kmip.OperationPayload
@@ -156,12 +172,17 @@ func c06Check(tree *ttlvref.Node, code uint32, response bool, enc string) (sig s
 			payload = it.ResponsePayload
 			e.TagAny(tagBatchItem, &it)
 		} else {
-			var it kmip.RequestBatchItem
-			if err := dec.TagAny(tagBatchItem, &it); err != nil {
+			var fresh kmip.RequestBatchItem
+			it := &fresh
+			if len(reuse) > 0 && reuse[0] {
+				// which payload type an item gets is decided by its operation, not by what the variable held before
+				it.RequestPayload = c06Earlier(int(code))
+			}
+			if err := dec.TagAny(tagBatchItem, it); err != nil {
 				return err
 			}
 			payload = it.RequestPayload
-			e.TagAny(tagBatchItem, &it)
+			e.TagAny(tagBatchItem, it)
 		}
 		reenc = e.Bytes()
 		return nil
@@ -337,7 +358,11 @@ func TestC06Dispatch(t *testing.T) {
 		if nt && rec.WantSample() && tree.Count() < 40 {
 			rec.Sample(c)
 		}
-		if sig, err := c06Check(tree, code, response, enc); err != nil {
+		reuse := !response && rapid.Bool().Draw(rt, "held-item-variable")
+		if reuse {
+			c.HeldVariable = true
+		}
+		if sig, err := c06Check(tree, code, response, enc, reuse); err != nil {
 			rec.Fail(rt, name, sig, err, c)
 		}
 	})
